@@ -31,6 +31,13 @@ rc::Gen<Case> genFor(const std::string &id, int tier) {
         auto frames = lim(8, {1, 2, 5});
         return asCase(concat({ops(anyLimit, 3), one(shape), one(op("prate", {uni(0, 10)})), one(op("arate", {uni(0, 3)})), one(frames), ops(anyLimit, 2)}));
     }
+    if (id == "C05" || id == "C06" || id == "C07" || id == "C08" || id == "C09" || id == "C10") {
+        // mostly histories from a fresh object; one in four starts from a generated file that is loaded and then edited
+        auto one = [](rc::Gen<Op> o) { return rc::gen::map(o, [](Op x) { return std::vector<Op>{x}; }); };
+        auto scratch = genScriptOpsFor(id, tier);
+        auto edited = concat({genFileOpsFor(tier, true), one(op("load", {})), genScriptOpsFor(id + "e", tier)});
+        return asCase(rc::gen::oneOf(scratch, scratch, scratch, edited));
+    }
     if (id == "C02" || id == "C04" || id == "C16" || id == "C12") return genFileCase(id, tier);
     return genScriptCase(id, tier);
 }
